@@ -183,9 +183,9 @@ def nf_small(raw):
 def run(ctx):
     CFG["A"], CFG["B"] = POOL[ctx.seed % len(POOL)]
     if ctx.quick:
-        CFG.update(max_sends=2, max_breaks=2, kinds=("eof", "reset", "oserr"))
-        depth = 13
-        cap = 60000
+        CFG.update(max_sends=3, max_breaks=2, kinds=("eof", "reset", "oserr"))
+        depth = 16
+        cap = 120000
     else:
         CFG.update(max_sends=3, max_breaks=3, kinds=("eof", "reset", "oserr", "timeout"))
         depth = 20
